@@ -129,7 +129,7 @@ Definition val_of_node (n : node) : pyval :=
 Definition sm (m : smethod) (needle hay : pyval) : outcome bool :=
   search_matches_g lit re_search m needle (HVal hay).
 
-(* ---------------- has_child (79-329) ---------------- *)
+(* ---------------- has_child (93-346) ---------------- *)
 
 Definition xor_verdict (invert present : bool) : bool :=
   (invert && negb present) || (present && negb invert).
@@ -221,13 +221,13 @@ Definition has_child (invert : bool) (params : list string) (data : node) (x : k
   | _ => Raise (YPE Generic)
   end.
 
-(* ---------------- name (333-382) ---------------- *)
+(* ---------------- name (349-399) ---------------- *)
 Definition kw_name_search (invert : bool) (params : list string) (x : kctx) : outcome (list coords) :=
   if Nat.ltb 1 (List.length params) then Raise (YPE Generic)
   else if invert then Raise (YPE Generic)
   else Ok [mkcoords (RefVal (k_parentref x)) (k_parent x) (k_parentref x) (k_path x) (k_ancestry x)].
 
-(* ---------------- max / min (386-795) ---------------- *)
+(* ---------------- max / min (402-816) ---------------- *)
 Record scan := mkscan {
   s_value : pyval;               (* match_value; PNone = None *)
   s_match : list coords;         (* match_nodes *)
@@ -236,7 +236,7 @@ Record scan := mkscan {
 
 Definition is_pnone (v : pyval) : bool := match v with PNone => true | _ => false end.
 
-(* the two tests on one comparable value (448-472 and the like); [None] = fell
+(* the two tests on one comparable value (468-489 and the like); [None] = fell
    through to the discard statement *)
 Definition scan_value (cmp : smethod) (s : scan) (eval_val : pyval) (nc : coords) : outcome (option scan) :=
   do c1 <- (if is_pnone (s_value s) then Ok true else sm cmp (s_value s) eval_val);
@@ -292,7 +292,7 @@ Definition hoh_step (cmp : smethod) (attr : string) (data_kvs : list (node * nod
       end
   end.
 
-(* list branch: one element (544-575) *)
+(* list branch: one element (563-593) *)
 Definition list_step (cmp : smethod) (x : kctx) (s : scan) (ie : nat * node) : outcome scan :=
   let '(idx, ele) := ie in
   let nc := child_coords x (RIdx idx) in
@@ -342,7 +342,7 @@ Definition extremum (cmp : smethod) (invert : bool) (params : list string) (data
 Definition kw_max := extremum MGt.
 Definition kw_min := extremum MLt.
 
-(* ---------------- parent (799-883) ---------------- *)
+(* ---------------- parent (819-909) ---------------- *)
 Fixpoint climb (n : nat) (here : loc) (path : list ref) (anc : list (loc * ref))
   : outcome (loc * list ref * list (loc * ref)) :=
   match n with
@@ -379,7 +379,7 @@ Definition kw_parent (invert : bool) (params : list string) (x : kctx) : outcome
                    (match last_entry with Some (_, r) => Some r | None => None end)
                    path anc].
 
-(* ---------------- distinct / unique (888-1177) ---------------- *)
+(* ---------------- distinct / unique (912-1237) ---------------- *)
 (* seen_values: a dict keyed by value = association list under Python ==,
    in insertion order; containers are unhashable *)
 Definition seen := list (pyval * list coords).
@@ -468,10 +468,15 @@ Definition kw_unique (invert : bool) (params : list string) (data : node) (x : k
           if invert then (if Nat.ltb 1 n then snd g else [])
           else (if Nat.eqb n 1 then snd g else [])) s).
 
-(* ---------------- KeywordSearches.search_matches (26-75) ---------------- *)
+(* ---------------- KeywordSearches.search_matches (25-90) ---------------- *)
 Definition keyword_search (invert : bool) (kw : keyword) (raw_params : string) (x : kctx)
   : outcome (list coords) :=
-  do params <- keyword_parameters raw_params;
+  (* 47-56: terms.parameters splits the text on first use; its ValueError
+     (unmatched quote) becomes a YAMLPathException *)
+  do params <- match keyword_parameters raw_params with
+               | Raise (PyCrash ValueError) => Raise (YPE Generic)
+               | o => o
+               end;
   do data <- node_at (k_here x);
   match kw with
   | KDistinct => kw_distinct invert params data x
